@@ -5,9 +5,48 @@ EXAMPLES = os.path.join(os.environ.get('VERIF_REPO', '/repo'), 'examples', 'netw
 SMALL = ['Net1.inp', 'Net2.inp', 'Net3.inp']
 
 
+# the repository's own small test networks: hand-made to exercise one feature each (second corpus, thorough tiers)
+TESTNETS_DIR = os.path.join(os.environ.get('VERIF_REPO', '/repo'), 'wntr', 'tests', 'networks_for_testing')
+TESTNETS = ['Anytown.inp', 'Awumah_layout1.inp', 'Awumah_layout8.inp', 'CCWI17-HermanMahmoud.inp', 'Todini_Fig2_optCost_CMH.inp',
+            'Todini_Fig2_optCost_GPM.inp', 'Todini_Fig2_solA_CMH.inp', 'Todini_Fig2_solA_GPM.inp', 'conditional_controls_1.inp',
+            'conditional_controls_2.inp', 'control_comb.inp', 'cv_controls.inp', 'leaks.inp', 'simulator.inp', 'tank_controls_1.inp',
+            'tank_controls_2.inp', 'time_controls.inp', 'times.inp', 'skeletonize.inp', 'fcv_open_no_downstream_sources.inp',
+            'fcv_open_no_upstream_sources.inp', 'prv_closed_no_upstream_sources.inp', 'prv_open_no_upstream_sources.inp',
+            'psv_open_no_downstream_sources.inp']
+
+
 def load_example(fname):
     import wntr
-    return wntr.network.WaterNetworkModel(os.path.join(EXAMPLES, fname))
+    d = EXAMPLES if os.path.exists(os.path.join(EXAMPLES, fname)) else TESTNETS_DIR
+    return wntr.network.WaterNetworkModel(os.path.join(d, fname))
+
+
+def testnet(rng, light=True):
+    """One of the repository's test networks with lightly perturbed run options; (wn, desc) or (None, reason)."""
+    f = rng.choice(TESTNETS)
+    path = os.path.join(TESTNETS_DIR, f)
+    if not os.path.exists(path):
+        return None, 'missing %s' % f
+    import wntr
+    try:
+        wn = wntr.network.WaterNetworkModel(path)
+    except Exception as e:  # noqa
+        return None, 'unreadable %s: %s' % (f, str(e)[:60])
+    if str(wn.options.hydraulic.headloss).upper() not in ('H-W', 'HW'):
+        return None, 'headloss %s' % wn.options.hydraulic.headloss
+    t = wn.options.time
+    desc = {'file': f, 'mode': 'DD'}
+    if rng.random() < 0.5:
+        t.duration = min(max(t.duration, 4 * t.hydraulic_timestep), 12 * t.hydraulic_timestep)
+    if rng.random() < 0.3:
+        wn.options.hydraulic.demand_multiplier = rng.choice([0.9, 1.1])
+    if not light and rng.random() < 0.3:
+        wn.options.hydraulic.demand_model = 'PDD'
+        wn.options.hydraulic.required_pressure = rng.choice([10.0, 20.0])
+        wn.options.hydraulic.minimum_pressure = rng.choice([0.0, 3.0])
+        desc['mode'] = 'PDD'
+    desc.update(hyd=t.hydraulic_timestep, duration=t.duration, pattern_start=t.pattern_start, mult=wn.options.hydraulic.demand_multiplier)
+    return wn, desc
 
 
 def perturbed_example(rng, tier, files=None):
